@@ -278,7 +278,7 @@ pub fn run(id: &str, tier: &str) -> Report {
         completed_tables += 1;
         if let Some(c) = cases.last() { rep.sample(json!({"body": c.body, "table": cfg.name()})); }
     }
-    if id == "C05" { c05_extra(&mut rep, thorough); c05_game_facts(&mut rep); }
+    if id == "C05" { c05_extra(&mut rep, thorough); c05_game_facts(&mut rep); c05_single_mentions(&mut rep); }
     if id == "C02" { c02_real(&mut rep, thorough); }
     rep.exhaustive = true;
     rep.bound_completed = format!("deviations<={bound}, expr depth<={depth}, stmts<={max_stmts}; {completed_tables}/{} intrinsic tables; pools {:?}; {} valuations; difficulties 0-3 where a switch/label occurs", tables.len(), pools, vals.len());
@@ -446,6 +446,70 @@ fn c05_extra(rep: &mut Report, thorough: bool) {
     }
 }
 
+
+/// (4) single-mention positions: each scratch-pool register is mentioned in EXACTLY ONE syntactic position of the body
+///     (operand, either sigil, raw REG[n], assignment target, call argument, jump condition, `times` count / counter,
+///     predecrement, a case of a difficulty switch, a case of a switch nested in a switch, a ternary arm, a cast operand),
+///     next to a local with a sentinel value and an expression that needs a temporary.  With pools of every size the
+///     mentioned register is the first candidate the allocator would otherwise hand out, so a mention the allocator does
+///     not see shows as a behaviour change (the local overwrites the register, or the register is read back changed).
+fn c05_single_mentions(rep: &mut Report) {
+    let table = Table::new(&TableCfg::FULL);
+    let mapfile = table.mapfile_text(REGS);
+    let vals = valuations();
+    let int_regs: [(&str, i32); 4] = [("A", R_A), ("B", R_B), ("C", R_C), ("D", R_D)];
+    let float_regs: [(&str, i32); 4] = [("X", R_X), ("Y", R_Y), ("Z", R_Z), ("W", R_W)];
+    // (position name, template with @R@ for the register, is the register written?, uses a switch (min length))
+    let int_pos: Vec<(&str, &str, usize)> = vec![
+        ("operand", "mS(@R@ + 1);", 0), ("call-arg", "mS(@R@);", 0), ("sigil-as-float", "mf(%@R@);", 0), ("raw-reg", "mS($REG[@N@]);", 0), ("raw-reg-float-sigil", "mf(%REG[@N@]);", 0),
+        ("assign-target", "@R@ = 5; mS(@R@);", 0), ("assign-op-target", "@R@ += 1;", 0), ("jump-cond", "if (@R@ == 0) goto LE; mS(1);", 0), ("jump-cond-truthy", "if (@R@) goto LE; mS(1);", 0),
+        ("times-count", "times(@R@ & 1) { mS(2); }", 0), ("times-counter", "times(@R@ = 2) { mS(2); }", 0), ("predecrement", "if (--@R@) goto LE; mS(1);", 0),
+        ("switch-case", "mS((1:@R@:3:4));", 4), ("switch-first-case", "mS((@R@:2));", 2), ("switch-after-hole", "mS((1::@R@));", 3), ("nested-switch-case", "mS((2:(9:@R@:9:9):6:7));", 4),
+        ("nested-switch-first", "mS(((@R@:8):5));", 2), ("switch-case-expr", "mS((1:(@R@ + 1)));", 2), ("switch-in-assign", "P = (1:@R@:3:4); mS(P);", 4), ("nested-switch-in-assign", "P = (2:(9:@R@:9:9):6:7); mS(P);", 4),
+        ("ternary-cond", "mS(@R@ ? 1 : 2);", 0), ("ternary-arm", "mS(P ? @R@ : 2);", 0), ("ternary-other-arm", "mS(P ? 1 : @R@);", 0), ("cast-operand", "mf(_f(@R@));", 0), ("real-cast-operand", "mf(float(@R@));", 0),
+        ("unary", "mS(-(@R@));", 0), ("deep-operand", "mS((1 + (2 * (3 - @R@))));", 0), ("second-call-arg", "mSS(1, @R@);", 0), ("local-init", "int q = @R@; mS(q);", 0),
+    ];
+    let float_pos: Vec<(&str, &str, usize)> = vec![
+        ("operand", "mf(@R@ + 1.0);", 0), ("call-arg", "mf(@R@);", 0), ("sigil-as-int", "mS($@R@);", 0), ("raw-reg", "mf(%REG[@N@]);", 0), ("assign-target", "@R@ = 5.5; mf(@R@);", 0),
+        ("jump-cond", "if (@R@ == 0.0) goto LE; mS(1);", 0), ("switch-case", "mf((1.0:@R@:3.0:4.0));", 4), ("nested-switch-case", "mf((2.0:(9.0:@R@:9.0:9.0):6.0:7.0));", 4),
+        ("switch-in-assign", "R = (1.0:@R@:3.0:4.0); mf(R);", 4), ("nested-switch-in-assign", "R = (2.0:(9.0:@R@:9.0:9.0):6.0:7.0); mf(R);", 4),
+        ("ternary-arm", "mf(P ? @R@ : 2.0);", 0), ("cast-operand", "mS(_S(@R@));", 0), ("sin-operand", "mf(sin(@R@));", 0), ("local-init", "float q = @R@; mf(q);", 0),
+    ];
+    // competitors for scratch: a local (int / float), a temporary, both; before or after the mention
+    let competitors: [(&str, &str, &str); 4] = [
+        ("int-local", "int zz = 777;", "mS(zz);"), ("float-local", "float zf = 777.5;", "mf(zf);"),
+        ("int-temp", "", "mS((P + 1) * (P + 2));"), ("float-temp", "", "mf((R + 1.0) * (R + 2.0));"),
+    ];
+    let mut cases: Vec<(Case, String)> = vec![];
+    for (float, regs, pos) in [(false, &int_regs[..], &int_pos), (true, &float_regs[..], &float_pos)] {
+        for (rname, rid) in regs { for (pname, tpl, swlen) in pos.iter() { for (cname, decl, use_) in &competitors { for order in 0..2 {
+            let stmt = tpl.replace("@R@", rname).replace("@N@", &rid.to_string());
+            let body = if order == 0 { format!("{{ {decl} {stmt} {use_} LE: mS(9); }}") } else { format!("{{ {decl} {use_} {stmt} LE: mS(9); }}") };
+            let mut model = crate::gen::Model::default();
+            model.regs.insert(*rid);
+            if stmt.contains("P ") || stmt.contains("P)") || stmt.contains("P;") || use_.contains('P') { model.regs.insert(R_P); }
+            if stmt.contains("R ") || stmt.contains("R)") || stmt.contains("R;") || use_.contains("R +") { model.regs.insert(R_R); }
+            model.uses_switch = *swlen > 0; model.min_switch_len = *swlen;
+            let _ = float;
+            cases.push((Case { body, model, choices: vec![] }, format!("{}:{pname}:{cname}", if float { "float" } else { "int" })));
+        }}}}
+    }
+    let pools: [(usize, usize); 4] = [(4, 4), (1, 1), (2, 2), (3, 3)];
+    let items: Vec<(usize, usize)> = (0..cases.len()).flat_map(|c| (0..pools.len()).map(move |p| (c, p))).collect();
+    let results = par_map(&items, Some(rep.deadline()), |_, &(c, p)| check_case(&table, &mapfile, &cases[c].0, pools[p], &vals, "C05"));
+    for (k, r) in results.into_iter().enumerate() {
+        let Some(r) = r else { rep.cap_hit = Some("wall cap in C05 single-mention family".into()); continue; };
+        let (c, _) = items[k];
+        rep.evaluations += 1 + r.executions; rep.states += 1; rep.traces_validated += r.traces;
+        if r.nontrivial { rep.nontrivial += 1; }
+        rep.outcome(&format!("mention:{}", r.outcome));
+        for mut f in r.failures {
+            if f.signature.starts_with("C05:behaviour:") { f.signature = format!("C05:single-mention-not-seen:{}", cases[c].1); }
+            rep.failures.push(f);
+        }
+    }
+    rep.extra.insert("single_mention_cases".into(), json!(items.len()));
+}
 
 /// (3) per-game scratch facts, for EVERY game of every register language (reference data below, from the games'
 ///     documentation: general-purpose registers by type, and the instruction that forbids scratch use with its scope):
